@@ -430,6 +430,8 @@ def _first_component(f, op):
     for d in f.whole_defs(l):
         if d[0] == "assign" and d[3][0] == "agg" and d[3][2]:
             return d[3][2][0]
+        if d[0] == "call" and d[2].get("res_local") and d[2]["args"] and re.search(r"::(new|from|with_\w+)$", d[2].get("res") or ""):
+            return d[2]["args"][0]      # a frame struct built by its constructor: `Frame::new(node, ..)`
     return op
 
 
